@@ -22,6 +22,46 @@ Notation top := (top S).
 
 Definition cur_ind (k : S) (st : top) : Q := if eqb (p_cur st) k then 1 else 0.
 
+(* the law before it is multiplied by n': stay with probability 1 - a, otherwise the sub-sampled candidate *)
+Theorem doubling_dir_law0 guard (st : top) v k :
+  let d := dir_skel st v in
+  let a := acc_prob (k_n S d) (p_n st) in
+  k_ok S d = true ->
+  (guard = false \/ Forall (fun s => finite_logd s = true) (k_leaves S d)) ->
+  dist (doubling_dir guard st v) (cur_ind k)
+  == (1 - a) * cur_ind k st + a * selp S leap ham uturn_ok alpha logu eqb (dir_start st v) v (p_j st) k.
+Proof.
+  intros d a Hok Hfin. unfold C08_NUTS.doubling_dir. rewrite dist_bind.
+  assert (E : dist (build (dir_start st v) v (p_j st))
+                (fun t => dist (if t_ok t
+                                then Flip false (acc_prob (t_n t) (p_n st))
+                                       (fun b => Ret (top_update uturn_ok st v t (b && (if guard then finite_logd (t_sel t) else true))))
+                                else Ret (top_update uturn_ok st v t false)) (cur_ind k))
+              == dist (build (dir_start st v) v (p_j st)) (fun t => (1 - a) * cur_ind k st + a * ind S eqb k t)).
+  { apply (dist_ext_out (fun t => skel_of S t = d /\ In (t_sel t) (t_leaves t))).
+    - apply all_out_and; [apply build_skel | apply build_sel_leaf].
+    - intros t [K L]. apply skel_fields in K. destruct K as (_ & _ & N & O & _ & _ & LL & _).
+      rewrite O, Hok. cbn [dist].
+      assert (G : (if guard then finite_logd (t_sel t) else true) = true).
+      { destruct Hfin as [-> | F]; [reflexivity|]. destruct guard; [|reflexivity].
+        rewrite Forall_forall in F. apply F. rewrite <- LL. exact L. }
+      rewrite G, N. fold a. unfold cur_ind, ind. cbn. ring. }
+  rewrite E, dist_affine. reflexivity.
+Qed.
+
+(* a sub-tree that says stop: the state does not move and the loop is no longer alive *)
+Lemma doubling_dir_dead guard (st : top) v (f : top -> Q) :
+  k_ok S (dir_skel st v) = false -> (forall st', p_s st' = false -> f st' == 0) ->
+  dist (doubling_dir guard st v) f == 0.
+Proof.
+  intros Hstop Hf. unfold C08_NUTS.doubling_dir. rewrite dist_bind.
+  rewrite (dist_ext_out (fun t => skel_of S t = dir_skel st v) _ _ (fun _ => 0)).
+  - apply dist_const.
+  - apply build_skel.
+  - intros t K. apply skel_fields in K. destruct K as (_ & _ & _ & O & _). rewrite O, Hstop. cbn [dist].
+    apply Hf. cbn. rewrite O, Hstop. reflexivity.
+Qed.
+
 Theorem doubling_dir_law guard (st : top) v k :
   let d := dir_skel st v in
   let a := acc_prob (k_n S d) (p_n st) in
